@@ -15,7 +15,7 @@ import (
 // connections) is captured and the capture is cut into two files at a
 // tape-chosen packet: the first holds half-open connections and incomplete
 // fragment lists, the second their continuation. In one process fq decodes
-// B, then A, then B again (each its own Interp): the two decodes of B must be
+// B, then A, then B twice more (each its own Interp): all decodes of B must be
 // byte-identical - whatever A left behind in reassembly state must not reach B.
 
 func init() { core.Register(&hsplit{}) }
@@ -84,10 +84,17 @@ func (*hsplit) Run(rc *core.RunCtx) *core.RunResult {
 		return runFQ(t, o, fqOpts{Policy: simrt.PolSequential}), o
 	}
 	what := fmt.Sprintf("capture of %d packets (%s) cut at packet %d, program %q", n, spec.Key(), k, prog)
-	b1, _ := run("b.cap", capB)
-	if !b1.abnormal(res, "C06", what+": first decode of the second part") {
-		res.Inconclusive = ""
-		return res
+	// two orders: "B A B B" finds state that accumulates (B after A differs from B before A);
+	// "A B B" finds state that the decode right after A uses up (the first B differs from the
+	// second) - with B decoded first its own leftovers would already have been consumed by A
+	variant := t.Intn(2)
+	var b1 *fqRun
+	if variant == 0 {
+		b1, _ = run("b.cap", capB)
+		if !b1.abnormal(res, "C06", what+": first decode of the second part") {
+			res.Inconclusive = ""
+			return res
+		}
 	}
 	a1, _ := run("a.cap", capA)
 	if !a1.abnormal(res, "C06", what+": decode of the first part") {
@@ -95,7 +102,16 @@ func (*hsplit) Run(rc *core.RunCtx) *core.RunResult {
 		return res
 	}
 	b2, _ := run("b.cap", capB)
-	if !b2.abnormal(res, "C18", what+": second decode of the second part") {
+	if !b2.abnormal(res, "C18", what+": decode of the second part after the first") {
+		return res
+	}
+	if b1 == nil {
+		b1 = b2
+	}
+	// and once more: state that the first part left behind may be used up by the decode right
+	// after it, so only that one differs
+	b3, _ := run("b.cap", capB)
+	if !b3.abnormal(res, "C18", what+": third decode of the second part") {
 		return res
 	}
 	res.Fingerprint = fnv64(fnv64(0, capA), capB)
@@ -106,9 +122,12 @@ func (*hsplit) Run(rc *core.RunCtx) *core.RunResult {
 	}
 	res.Probes["split_captures"]++
 	res.Sample = map[string]any{"packets": n, "cut": k, "flavour": spec.Key(), "program": prog, "cut_inside_fragment": cutInFrag}
-	if !bytes.Equal(b1.Res.Stdout, b2.Res.Stdout) || !bytes.Equal(b1.Res.Stderr, b2.Res.Stderr) || b1.Res.Exit != b2.Res.Exit {
-		d := firstDiff(b1.Res.Stdout, b2.Res.Stdout)
-		res.Violate("C18", "state-leak", "capture-split:"+format, fmt.Sprintf("%s: the second part decoded after the first part differs from the same file decoded before it (first stdout difference at byte %d, status %d vs %d)\n  after:  %q\n  before: %q", what, d, b2.Res.Exit, b1.Res.Exit, ctxAround(b2.Res.Stdout, d), ctxAround(b1.Res.Stdout, d)))
+	for i, bx := range []*fqRun{b2, b3} {
+		if !bytes.Equal(b1.Res.Stdout, bx.Res.Stdout) || !bytes.Equal(b1.Res.Stderr, bx.Res.Stderr) || b1.Res.Exit != bx.Res.Exit {
+			d := firstDiff(b1.Res.Stdout, bx.Res.Stdout)
+			res.Violate("C18", "state-leak", "capture-split:"+format, fmt.Sprintf("%s: the second part decoded after the first part (decode %d of it) differs from the same file decoded before it (first stdout difference at byte %d, status %d vs %d)\n  after:  %q\n  before: %q", what, i+2, d, bx.Res.Exit, b1.Res.Exit, ctxAround(bx.Res.Stdout, d), ctxAround(b1.Res.Stdout, d)))
+			break
+		}
 	}
 	return res
 }
